@@ -1306,43 +1306,38 @@ class AstEval:
 
     async def ast_with(self, arg, async_attr=""):
         """Execute with statement."""
-        hit_except = False
-        ctx_list = []
-        val = None
-        enter_attr = f"__{async_attr}enter__"
-        exit_attr = f"__{async_attr}exit__"
-        try:
-            for item in arg.items:
-                manager = await self.aeval(item.context_expr)
-                ctx_list.append(
-                    {
-                        "manager": manager,
-                        "enter": getattr(type(manager), enter_attr),
-                        "exit": getattr(type(manager), exit_attr),
-                        "target": item.optional_vars,
-                    }
-                )
-            for ctx in ctx_list:
-                value = await self.call_func(ctx["enter"], enter_attr, ctx["manager"])
-                if ctx["target"]:
-                    await self.recurse_assign(ctx["target"], value)
+        return await self.with_items(arg, arg.items, async_attr)
+
+    async def with_items(self, arg, items, async_attr):
+        """Execute a with statement item by item: `with a, b:` behaves like `with a:` containing `with b:`."""
+        if len(items) == 0:
+            val = None
             for arg1 in arg.body:
                 val = await self.aeval(arg1)
                 if isinstance(val, EvalStopFlow):
                     break
+            return val
+        enter_attr = f"__{async_attr}enter__"
+        exit_attr = f"__{async_attr}exit__"
+        manager = await self.aeval(items[0].context_expr)
+        enter = getattr(type(manager), enter_attr)
+        exit_func = getattr(type(manager), exit_attr)
+        # a manager whose __enter__ raises is not exited
+        value = await self.call_func(enter, enter_attr, manager)
+        hit_except = False
+        try:
+            if items[0].optional_vars:
+                await self.recurse_assign(items[0].optional_vars, value)
+            return await self.with_items(arg, items[1:], async_attr)
         except Exception:
             hit_except = True
-            exit_ok = True
-            for ctx in reversed(ctx_list):
-                ret = await self.call_func(ctx["exit"], exit_attr, ctx["manager"], *sys.exc_info())
-                exit_ok = exit_ok and ret
-            if not exit_ok:
+            # an outer manager only sees an exception that no inner manager suppressed
+            if not await self.call_func(exit_func, exit_attr, manager, *sys.exc_info()):
                 raise
+            return None
         finally:
             if not hit_except:
-                for ctx in reversed(ctx_list):
-                    await self.call_func(ctx["exit"], exit_attr, ctx["manager"], None, None, None)
-        return val
+                await self.call_func(exit_func, exit_attr, manager, None, None, None)
 
     async def ast_asyncwith(self, arg):
         """Execute async with statement."""
